@@ -154,7 +154,11 @@ func builtinDateParse(call FunctionCall) Value {
 }
 
 func builtinDateUTC(call FunctionCall) Value {
-	return float64Value(newDateTime(call.ArgumentList, time.UTC))
+	epoch := newDateTime(call.ArgumentList, time.UTC)
+	if math.Abs(epoch) > 8.64e15 { // 15.9.4.3 step 9: TimeClip
+		return NaNValue()
+	}
+	return float64Value(epoch)
 }
 
 func builtinDateNow(call FunctionCall) Value {
